@@ -389,15 +389,15 @@ def agent_jobs(pid, tier, seed):
             args += ["--" + k, str(v)]
         return {"name": name, "args": args}
     if pid == "C16":
-        return [aj("agents-random-kind", seed, n(300, 6000), n(25, 200), kinds="0"),
-                aj("agents-noise-kind", seed + 1, n(300, 6000), n(25, 200), kinds="1"),
-                aj("agents-momentum-kind", seed + 2, n(300, 6000), n(25, 200), kinds="2"),
-                aj("agents-mixed", seed + 3, n(300, 6000), n(25, 100), kinds="0,1,2")]
+        return [aj("agents-random-kind", seed, n(300, 2000), n(25, 80), kinds="0"),
+                aj("agents-noise-kind", seed + 1, n(300, 2000), n(25, 80), kinds="1"),
+                aj("agents-momentum-kind", seed + 2, n(300, 2000), n(25, 80), kinds="2"),
+                aj("agents-mixed", seed + 3, n(300, 2000), n(25, 60), kinds="0,1,2")]
     if pid == "C17":
-        return [aj("momentum-imposed-paths", seed, n(500, 10000), n(14, 40), kinds="2", paths=1),
-                aj("momentum-free", seed + 1, n(200, 4000), n(20, 100), kinds="2")]
+        return [aj("momentum-imposed-paths", seed, n(500, 4000), n(14, 30), kinds="2", paths=1),
+                aj("momentum-free", seed + 1, n(200, 1500), n(20, 60), kinds="2")]
     if pid == "C09":
-        return [aj("agents-mixed", seed, n(400, 8000), n(30, 200), kinds="0,1,2")]
+        return [aj("agents-mixed", seed, n(400, 2500), n(30, 80), kinds="0,1,2")]
     return []
 
 
@@ -469,7 +469,7 @@ def run_c17(ctx):
 
 def run_c09(ctx):
     def extra(c):
-        return aux_job(c, [common.DRIVE, "determinism", "--seed", str(c.seed), "--count", "60" if c.tier == "quick" else "2000"],
+        return aux_job(c, [common.DRIVE, "determinism", "--seed", str(c.seed), "--count", "60" if c.tier == "quick" else "600"],
                        "DETFAIL", "DETSTATS", "runner_determinism",
                        "sim_runner / market_sim_runner on derive-macro agent sets (random+noise+momentum, nested sets): twice in one process, in a "
                        "separate OS process, with and without the progress bar, and as a hand-written loop over Xoroshiro128StarStar::seed_from_u64(seed); "
